@@ -233,7 +233,7 @@ fn gen_random(rng: &mut Rng, max_len: usize, clean: bool) -> Vec<String> {
         }
         acts.push("g1".into());
     }
-    acts.push("r6".into());
+    acts.push("r12".into());
     acts
 }
 
@@ -242,21 +242,21 @@ fn gen_drop_windows() -> Vec<Vec<String>> {
     let s = |v: &[&str]| v.iter().map(|x| x.to_string()).collect::<Vec<_>>();
     vec![
         // never polled
-        s(&["s1", "s1", "x0", "d1/11/1", "d2/22/1", "r4"]),
+        s(&["s1", "s1", "x0", "d1/11/1", "d2/22/1", "r8"]),
         // waiting for the receive lock
-        s(&["s1", "s1", "s1", "p0", "p1", "x1", "d2/22/1", "d1/11/1", "d3/33/1", "r4"]),
+        s(&["s1", "s1", "s1", "p0", "p1", "x1", "d2/22/1", "d1/11/1", "d3/33/1", "r8"]),
         // handed the lock but not run yet
-        s(&["s1", "s1", "s1", "p0", "p1", "p2", "d2/22/1", "p0", "x1", "d1/11/1", "d3/33/1", "r4"]),
+        s(&["s1", "s1", "s1", "p0", "p1", "p2", "d2/22/1", "p0", "x1", "d1/11/1", "d3/33/1", "r8"]),
         // reading from the transport
-        s(&["s1", "s1", "p0", "x0", "d1/11/1", "d2/22/1", "r4"]),
-        s(&["s1", "s1", "p0", "p1", "x0", "d2/22/1", "d1/11/1", "r4"]),
+        s(&["s1", "s1", "p0", "x0", "d1/11/1", "d2/22/1", "r8"]),
+        s(&["s1", "s1", "p0", "p1", "x0", "d2/22/1", "d1/11/1", "r8"]),
         // holding another caller's reply while `rpc()` is blocked in the transport send
-        s(&["s1", "s1", "p0", "g0", "s1", "d2/22/1", "p0", "x0", "g1", "d3/33/1", "r4"]),
+        s(&["s1", "s1", "p0", "g0", "s1", "d2/22/1", "p0", "x0", "g1", "d3/33/1", "r8"]),
         // waiting for the requests lock before looking at its own slot
-        s(&["s1", "s1", "g0", "s1", "p0", "x0", "g1", "d2/22/1", "d3/33/1", "r4"]),
+        s(&["s1", "s1", "g0", "s1", "p0", "x0", "g1", "d2/22/1", "d3/33/1", "r8"]),
         // session stays usable: new request after drops
-        s(&["s1", "p0", "x0", "s1", "d2/22/1", "r3"]),
-        s(&["s1", "s1", "p1", "x1", "s1", "d1/11/1", "d3/33/1", "r4"]),
+        s(&["s1", "p0", "x0", "s1", "d2/22/1", "r8"]),
+        s(&["s1", "s1", "p1", "x1", "s1", "d1/11/1", "d3/33/1", "r8"]),
     ]
 }
 
@@ -288,7 +288,7 @@ pub fn main(opts: &Opts) {
                     }
                     a.push("c".into());
                     a.push("s1".into()); // a later operation must fail, not hang
-                    a.push(format!("r{}", n + 2));
+                    a.push(format!("r{}", 2 * n + 3));
                     scheds.push(a);
                 }
             }
@@ -307,7 +307,7 @@ pub fn main(opts: &Opts) {
                 for (k, id) in p.iter().enumerate() {
                     a.push(format!("d{id}/{}/1", 10 * id + k));
                 }
-                a.push(format!("r{}", n + 1));
+                a.push(format!("r{}", 2 * n + 1));
                 scheds.push(a);
             }
         }
